@@ -11,7 +11,7 @@ import Cellml.Iso.Namespace
     `Iso.strip`. Everything the python methods themselves decide (guards, their order, comparisons, constants, which
     argument goes where, which branch defines what) is not here: it comes from the source text. Core Lean only. -/
 
-namespace Cellml.Tie
+namespace Cellml.Tie.PUnits
 open Units
 
 /-- python `str + str` is concatenation (the generic rule of the translator writes `+`) -/
@@ -268,4 +268,4 @@ def derefStore : Option StoreRef → Except PyErr StoreRef
 /-- `set(xs)` of a list of distinct names -/
 def pySet (xs : List String) : List String := xs
 
-end Cellml.Tie
+end Cellml.Tie.PUnits
